@@ -4,7 +4,7 @@ import re
 import sys, os
 sys.path.insert(0, os.path.join(os.path.dirname(os.path.dirname(os.path.abspath(__file__))), "engine"))
 
-from facts import callee, callee_decl, op_place, op_local, span_str, AnchorError
+from facts import callee, callee_decl, op_place, op_local, span_str, AnchorError, place_fields, place_has_field, fmt_place, const_val, is_const
 from callgraph import Effects, strip_crate
 import flow
 import cfg as C
